@@ -279,6 +279,24 @@ func (s *Scheme) runDKG(ctx context.Context, membership *membership, dkgProtocol
 	ctx, cancel := context.WithCancel(ctx)
 	defer cancel()
 
+	// The callback below may outlive this call (a backend that returns late once its context is done),
+	// and by then its topics may belong to a later key generation: the handler it registers is removed
+	// once, no later than we return, and is not registered once we have returned.
+	var membersSyncTopic []byte // guarded by s.lock
+	var finished bool           // guarded by s.lock
+	removeMembersSync := func() {
+		s.lock.Lock()
+		defer s.lock.Unlock()
+		if finished {
+			return
+		}
+		finished = true
+		if membersSyncTopic != nil {
+			delete(s.syncsInProgress, string(membersSyncTopic))
+		}
+	}
+	defer removeMembersSync()
+
 	callback := func(members []uint16) {
 		universalIds := UIntsToUniversalIDs(members)
 		parties, err := membership.partyIDsByUniversalIDs(universalIds)
@@ -348,14 +366,16 @@ func (s *Scheme) runDKG(ctx context.Context, membership *membership, dkgProtocol
 		})
 
 		s.lock.Lock()
+		if finished {
+			s.lock.Unlock()
+			resultChan <- mpcResult{err: fmt.Errorf("key generation ended before consensus on membership")}
+			return
+		}
+		membersSyncTopic = membersSyncTopicHash
 		s.syncsInProgress[string(membersSyncTopicHash)] = sync.HandleMessage
 		s.lock.Unlock()
 
-		defer func() {
-			s.lock.Lock()
-			delete(s.syncsInProgress, string(membersSyncTopicHash))
-			s.lock.Unlock()
-		}()
+		defer removeMembersSync()
 
 		go sync.Synchronize(ctx, func([]uint16) {
 			close(membershipConsensus)
@@ -467,12 +487,22 @@ func (s *Scheme) Sign(c context.Context, msgHash []byte, topic string) ([]byte, 
 	ctx, cancel := context.WithCancel(c)
 	defer cancel()
 
+	// The continuations below may outlive this call (a backend that returns late once its context is done),
+	// and by then the topic may belong to a later session: the handlers of this session are removed once,
+	// no later than we return, and nothing is registered or removed on its behalf afterwards.
+	syncTopic := hash(topicHash)
+	var cleaned bool // guarded by s.lock
 	cleanup := func() {
 		s.lock.Lock()
+		defer s.lock.Unlock()
+		if cleaned {
+			return
+		}
+		cleaned = true
 		delete(s.syncsInProgress, string(topicHash))
+		delete(s.syncsInProgress, string(syncTopic))
 		delete(s.messageClassifiers, string(topicHash))
 		delete(s.rbcInProgress, string(topicHash))
-		s.lock.Unlock()
 	}
 
 	var signedSuccessfully uint32
@@ -506,7 +536,6 @@ func (s *Scheme) Sign(c context.Context, msgHash []byte, topic string) ([]byte, 
 
 		// We will synchronize again to ensure all parties have initialized the signing instance before
 		// we actually start signing.
-		syncTopic := hash(topicHash)
 		signersWithoutMe := excludeUniversal(UIntsToUniversalIDs(signers), s.SelfID)
 
 		sync := s.SyncFactory(signers, func(msg []byte) {
@@ -516,12 +545,18 @@ func (s *Scheme) Sign(c context.Context, msgHash []byte, topic string) ([]byte, 
 		})
 
 		s.lock.Lock()
+		if cleaned {
+			s.lock.Unlock()
+			return
+		}
 		s.syncsInProgress[string(syncTopic)] = sync.HandleMessage
 		s.lock.Unlock()
 
 		cleanupSyncTopic := func() {
 			s.lock.Lock()
-			delete(s.syncsInProgress, string(syncTopic))
+			if !cleaned {
+				delete(s.syncsInProgress, string(syncTopic))
+			}
 			s.lock.Unlock()
 		}
 
